@@ -73,6 +73,7 @@ func typeSwitchesOverGraphqlType(p *an.Prog, pp *packages.Package) []struct {
 
 func c14(c *an.Ctx) {
 	p := c.P
+	c.Check("R-KEY", "object fields exactly as selected: a memoised sub-result of an expensive field is keyed by field, source and the selection itself", 1, func(o *an.O) { ruleWorkCacheKey(c, o) })
 	outputKinds := []string{"Enum", "List", "NonNull", "Object", "Scalar", "Union"}
 
 	c.Check("R-EXH", "every type switch over graphql.Type covers all output kinds or ends in an error/panic default", 8, func(o *an.O) {
